@@ -35,7 +35,7 @@ m = {
  "hooks": {"guard": "PANOPTICA_VERIF", "enable": "none: static analysis reads /repo sources only; no hooks or instrumentation were added to /repo", "baseline_off_cmd": "cd /repo && /venv/bin/python -m pytest -ra -q -p no:cacheprovider --timeout=900 --continue-on-collection-errors", "source_commits": [], "add_only": True},
  "engines": [{"name": "pstat", "path": "/verif/pstat", "serves_properties": served, "kind_free_text": "repository-specific static analyser (stdlib ast): program model + call resolution, path conditions, finite-domain abstract evaluation, exact polynomial (Venn/symbolic-integer) domains, role/alias/lockset/typestate dataflow; variant corpus (mutants/twins) for rule liveness"}],
  "checks": checks,
- "notes": "Static analysis only. Exit codes: 0 holds, 1 violation (VIOLATION line + replay file), 2 undecided/analysis error (ANALYSIS-ERROR line, never on the unchanged tree). The 14 genuine defects found are repaired in /repo by 'fix:' commits and listed in known_findings.json as fixed.",
+ "notes": "Static analysis only. Exit codes: 0 holds, 1 violation (VIOLATION line + replay file), 2 undecided/analysis error (ANALYSIS-ERROR line, never on the unchanged tree). 16 genuine defects are repaired in /repo by 'fix:' commits (listed in known_findings.json as fixed); one (D17, C16/C17: a subject name with a lone carriage return) is recorded as a known finding and printed as KNOWN-FINDING.",
  "not_applicable": na,
 }
 json.dump(m, open(os.path.join(V, "MANIFEST.json"), "w"), indent=1)
